@@ -133,7 +133,7 @@ def _run_one(item):
                         perm.append(j + 1)
                     rng = tmpl[j][2] if j is not None and len(tmpl[j][2]) == len(ps) else [(0.0, 0.0)] * len(ps)
                     proj.append({"name": name, "modes": modes, "p": [int(round(x * 1e6)) for x in ps],
-                                 "lo": [int(round(lo * 1e6)) - 1 for lo, hi in rng], "hi": [int(round(hi * 1e6)) + 1 for lo, hi in rng],
+                                 "dom": [[[int(round(lo * 1e6)) - 1, int(round(hi * 1e6)) + 1]] for lo, hi in rng],
                                  "dag": bool(getattr(cmd.op, "dagger", False))})
                 rec["compiled"] = proj
                 rec["perm"] = perm
@@ -230,7 +230,7 @@ def c12(chk):
                 accepted[comp] += 1
                 if not it["inside"] and it["bad"] in ("wrongpair", "toomuch"):
                     pass          # a returned circuit is still judged below (it must then be out of range / off layout)
-                cases.append({"template": tmpl, "compiled": rec["compiled"], "perm": rec["perm"]})
+                cases.append({"template": tmpl, "compiled": rec["compiled"], "perm": rec["perm"], "bins": 1, "maxbins": 1})
                 owners.append((f, det, rec))
                 if any(c["dag"] for c in rec["compiled"]):
                     chk.violation("InverseGateInHardwareCircuit", f, det)
@@ -256,6 +256,7 @@ def c12(chk):
             raise common.MachineryError("vacuous: no source program was accepted by any X compiler for %d pairs (layout mismatch?)" % np_)
         chk.sample({"pairs": np_, "layout": layout(np_)[:300], "accepted": accepted})
     # time-domain loop devices
-    from . import p_borealis
+    from . import p_borealis, p_tdmdev
+    p_tdmdev.tdm_devices(chk)
     p_borealis.borealis(chk)
     chk.exhaustive = tier != "quick"
